@@ -158,6 +158,10 @@ def pm_iteration(I, how, outcome=None):
                  detail='messages decoded earlier in the same read must still be returned (a list, never None)')
 
 
+def same_type(a, b):
+    return z3.And(a.isnone == b.isnone, z3.Or(a.isnone, a.val.t == b.val.t))
+
+
 def payload_checks(I, G, it, msgs0, msgs1, fired, written, pend1, ptype1):
     """a complete frame was consumed and the loop goes on: data frame or ping/pong"""
     self = I.local('self')
@@ -179,6 +183,8 @@ def payload_checks(I, G, it, msgs0, msgs1, fired, written, pend1, ptype1):
         I.oblige('ping.pong_carries_the_ping_payload', w.t == z3.Concat(z3.StrFromCode(z3.IntVal(0x8A)), TAIL(payload, I.field(self, '_sock').t == core.null())),
                  detail='the pong echoes exactly the payload of the ping frame (a pending fragment of a data message is not part of it)')
         I.oblige('ping.pending_fragment_untouched', z3.And(pend1 == it['pend'], n1 == n0))
+        I.oblige('ping.pending_type_untouched', same_type(ptype1, it['ptype']),
+                 detail='a ping inside a fragmented message must not change the type the reassembled message will be delivered with')
         return
     I.oblige('ping.answered', z3.Implies(z3.And(fin, op == 9, z3.Not(it['close_sent'])), z3.BoolVal(False)), detail='a ping must be answered by a pong')
     # data frames
@@ -197,6 +203,8 @@ def payload_checks(I, G, it, msgs0, msgs1, fired, written, pend1, ptype1):
         op != 0, z3.And(z3.Not(ptype1.isnone), ptype1.val.t == op), z3.And(ptype1.isnone == it['ptype'].isnone, z3.Or(ptype1.isnone, ptype1.val.t == it['ptype'].val.t)))))
     I.oblige('control.final_control_frames_leave_the_pending_message_alone', z3.Implies(z3.And(fin, op >= 8), z3.And(pend1 == it['pend'], n1 == n0)),
              detail='ping/pong/close inside a fragmented message do not disturb it')
+    I.oblige('control.frames_leave_the_pending_type_alone', z3.Implies(op >= 8, same_type(ptype1, it['ptype'])),
+             detail='the type of a fragmented message comes from its first fragment; control frames (opcode >= 8) in between must not change it')
 
 
 def spec_payload(I, raw, masked, key, plen):
